@@ -54,7 +54,7 @@ func Profiles() map[string]Profile {
 		RangeKeys: 1, LatestCls: "batchleak", MaxIters: 2, Limits: true})
 	add(Profile{Name: "C02", W: map[string]int{"write": 25, "maint": 6, "positer": 10, "posop": 70, "close": 4, "setbounds": 6, "setopts": 3, "npsweep": 5, "straddle": 4, "windowscan": 6, "pausedseek": 6},
 		RangeKeys: 1, MaxIters: 2, IterCls: "pos", Masks: true, Limits: true})
-	add(Profile{Name: "C08", W: map[string]int{"write": 35, "ingest": 8, "maint": 12, "positer": 10, "posop": 50, "close": 4, "scan": 8},
+	add(Profile{Name: "C08", W: map[string]int{"write": 35, "ingest": 8, "maint": 12, "positer": 10, "posop": 50, "close": 4, "scan": 8, "rkabut": 6},
 		RangeKeys: 5, MaxIters: 2, IterCls: "rk", ScanLatest: true, LatestCls: "rk"})
 	add(Profile{Name: "C09", W: map[string]int{"write": 35, "maint": 12, "positer": 12, "posop": 50, "close": 5, "extingest": 8, "extmask": 6},
 		RangeKeys: 4, MaxIters: 2, IterCls: "mask", Masks: true})
@@ -966,6 +966,8 @@ func (g *Gen) Step() {
 		g.actExtMask()
 	case "pausedseek":
 		g.actPausedSeek()
+	case "rkabut":
+		g.actRkAbut()
 	case "ingestpair":
 		g.actIngestPair()
 	case "checkpointinner":
